@@ -130,11 +130,39 @@ CLAIMS.update({
     },
 })
 
+CLAIMS.update({
+    "C11": {
+        "text": "Decides: thread status tests pending host call, then done, then error; the runtime maps Done->Done, Error->MainThreadError(same error), PendingHostFunc->PendingHostFunc, else OutOfSteps (STATUS-MAP); finish_thread_turn returns true exactly for `is_main && done` and every caller "
+        "propagates it without consulting other threads (MAIN-DONE); each executed unit is paid for under remaining_steps > 0 (STEP-ACCOUNT); the HostFunc arm records the id and yields without touching the operand stack, Stop leaves the result on it (STATUS-MAP).",
+        "note": "Argument order of generated bindings is C36; the value of the final expression depends on C02.",
+    },
+    "C23": {
+        "text": "Decides: Try/Unwrap implementations for option and result in prelude.abra map some/ok to Continue(payload)/payload and none/err to Break(residual)/panic, from_residual rebuilds none/err(r) (TRY-TEMPLATES, on an independent parse of the prelude); the numeric variant tags and "
+        "interface method indices hard-coded in the generator's `?`, `!` and `for` lowerings equal the declaration order in prelude.abra (TAG-AGREE).",
+        "note": "Stack depth at the `?` site for every expression shape is not decided.",
+    },
+    "C24": {
+        "text": "Decides on an independent parse of prelude.abra: every delegating Ord/Equal method ends, through the intrinsic -> emit_intrinsic -> assembler -> VM chain, in the arm implementing exactly that operator with operands in order; bool and void definitions equal the truth tables of < <= > >= == on false<true; "
+        "tuple Ord implementations are evaluated over all 3^n component-order cases against lexicographic order; tuple Equal over all 2^n cases; array Equal compares length and every index (ORD-LAWS); every component feeds the hash in order and hashing uses only wrapping arithmetic (HASH-LAWS); in-lined fast paths by PIPE.",
+        "note": "Transitivity for user types and NaN ordering beyond 'one total order' (C16) are not decided.",
+    },
+    "C27": {
+        "text": "Decides the extreme-key clause: no overflow-capable operation (abs, unary minus, + - *) is applied to a hash code or stored hash in core/map - bucket indices are Euclidean remainders of the raw hash - and core/set delegates each operation to the same-named map operation with its arguments in order (HASH-ARITH).",
+        "note": "The dictionary model (collision chains, resize, slot reuse) is not decided.",
+    },
+    "C28": {
+        "text": "Decides by constant propagation through `..` on an independent parse of prelude.abra: each ToString implementation yields exactly the documented template - nil, true/false, some(x)/none, ok(x)/err(e), `[ ` elements separated by `, ` ` ]`, `(a, b)` for 2-4 tuples - and int/float go through StringFromInt/StringFromFloat (STR-TEMPLATES).",
+        "note": "Decimal rendering of numbers is std's.",
+    },
+})
+CLAIMS["C26"]["text"] += " Array clone builds a fresh array from Clone.clone of every element (CLONE-DEEP)."
+CLAIMS["C10"]["text"] += " Scheduler accounting: the thread is always stepped by the literal unit under remaining_steps > 0, so GC work per instruction is independent of the embedder's budget (STEP-ACCOUNT); saved operands are GC roots (GC-ROOTS)."
+
 NOT_APPLICABLE = {
     "C22": "which instance monomorphisation selects is computed from solved types of the user's program by unification/substitution; no structural fact short of a correctness proof of subst/fits_impl_ty decides it",
     "C25": "sortedness/stability is an algorithmic property of index arithmetic over arrays of arbitrary length; the structural facts available are far from sufficient",
     "C30": "literal denotation depends on character-level lexer behaviour on every string and on str::parse: value semantics, not code shape",
     "C35": "agreement of offset->node search with the resolver's keys is a relation between source ranges computed at run time",
 }
-for _p in ["C11", "C14", "C23", "C24", "C27", "C28", "C29", "C31", "C32", "C33", "C34", "C36", "C37", "C38"]:
+for _p in ["C14", "C29", "C31", "C32", "C33", "C34", "C36", "C37", "C38"]:
     NOT_APPLICABLE.setdefault(_p, PENDING)
